@@ -30,7 +30,18 @@ Parts(e) ==
       K  == {r.e : r \in S}
       text == e.form \in {"top", "tree"}
       want == IF e.n > 0 THEN MinN(e.n, Cardinality(K1)) ELSE Cardinality(K1)
-      TE == TrimEdgesD(e.samples, e.cfg, K)
+      \* the reference is the untrimmed report, in which a path through a zero entry is no adjacency (ZeroEntries);
+      \* the code bridges zero entries like trimmed ones when it rebuilds the graph for trimming: accepted as a
+      \* separately named failure (zerobridge) so that it is reported as the known finding it is, nothing else
+      Z0 == ZeroEntries(e.samples, e.cfg)
+      EdgesOK(TEx) == \A i \in DOMAIN e.edges :
+                        \E x \in TEx : /\ PName(x.src) = e.edges[i].src /\ PName(x.dst) = e.edges[i].dst
+                                        /\ x.w = e.edges[i].w
+                                        /\ AbsI(x.w) >= e.ec
+      cutOK == EdgesOK(TrimEdgesDZ(e.samples, e.cfg, K, Z0))
+      brOK == Z0 # {} /\ EdgesOK(TrimEdgesDZ(e.samples, e.cfg, K, {}))
+      Z == IF cutOK \/ ~brOK THEN Z0 ELSE {}
+      TE == TrimEdgesDZ(e.samples, e.cfg, K, Z)
   IN
   [ op       |-> e.op = "trim",
     dangling |-> e.dangling = 0,                                                 \* no edge refers to a removed entry
@@ -41,15 +52,13 @@ Parts(e) ==
     numbers  |-> \A i \in DOMAIN e.nodes :                                       \* untrimmed numbers
                    \E r \in S : PName(r.e) = e.nodes[i].name /\ r.flat = e.nodes[i].flat /\ r.cum = e.nodes[i].cum,
     account  |-> e.shown = FoldSet(LAMBDA r, acc : acc + r.flat, 0, S),
-    edges    |-> \A i \in DOMAIN e.edges :
-                   \E x \in TE : /\ PName(x.src) = e.edges[i].src /\ PName(x.dst) = e.edges[i].dst
-                                 /\ x.w = e.edges[i].w
-                                 /\ AbsI(x.w) >= e.ec,
+    edges    |-> cutOK \/ brOK,
+    zerobridge |-> cutOK \/ ~brOK,
     residual |-> \A i \in DOMAIN e.edges :
                    \A x \in TE : (PName(x.src) = e.edges[i].src /\ PName(x.dst) = e.edges[i].dst)
-                                  => ResidualOK(e.samples, e.cfg, K, x.src, x.dst, e.edges[i].res),
+                                  => ResidualOKZ(e.samples, e.cfg, K, Z, x.src, x.dst, e.edges[i].res),
     alledges |-> e.form = "tree" =>                                              \* text: every direct edge at or above the cutoff is there
-                   \A x \in TE : (AbsI(x.w) >= e.ec /\ NoBypass(e.samples, e.cfg, K, x.src, x.dst)) =>
+                   \A x \in TE : (AbsI(x.w) >= e.ec /\ NoBypassZ(e.samples, e.cfg, K, Z, x.src, x.dst)) =>
                       \E i \in DOMAIN e.edges : e.edges[i].src = PName(x.src) /\ e.edges[i].dst = PName(x.dst) ]
 Failed(e) == LET p == Parts(e) IN {f \in DOMAIN p : ~p[f]}
 
